@@ -496,14 +496,7 @@ def make_builtins(interp):
     def _(i, a, k, n):
         kind, items = i.iterate(a[0], n)
         if kind == "known":
-            if k.get("key") is not None or k.get("reverse"):
-                raise Unsupported("sorted with key", n)
-            try:
-                return ListV(sorted(items, key=_sort_key))
-            except TypeError:
-                # symbolic keys: some permutation of the items (the order is unknown, the contents are not)
-                i.emit("reorder", "sorted", [a[0]], node=n, extra="symbolic")
-                return ListV(list(items))
+            return ListV(sort_items(i, items, k, n, "sorted"))
         lo = ListOf(getattr(items, "elem", ("elem-of", items)), label=f"sorted({show(items)})")
         lo.source = items
         lo.derived = "sorted"
@@ -724,6 +717,22 @@ def _sort_key(v):
     if isinstance(v, (str, int, Fraction)):
         return (type(v).__name__ == "str", v)
     raise TypeError
+
+
+def sort_items(i, items, k, n, what):
+    """stable sort with key= / reverse=; with symbolic keys the result is some permutation: a 'reorder' event is emitted
+    and the given order kept (the analyses that care about order listen for that event)"""
+    key = k.get("key")
+    rev = k.get("reverse", False)
+    if not isinstance(rev, bool):
+        rev = i.truth(rev, n)
+    keys = [x if key is None else i.call(key, [x], {}, n) for x in items]
+    try:
+        order = sorted(range(len(items)), key=lambda j: _sort_key(keys[j]), reverse=rev)
+    except TypeError:
+        i.emit("reorder", what, [ListV(list(items))], node=n, extra="symbolic")
+        return list(items)
+    return [items[j] for j in order]
 
 
 def _minmax(i, op, a, n):
@@ -1643,7 +1652,7 @@ def _m_list_copy(i, l, a, k, n):
 
 def _m_list_sort(i, l, a, k, n):
     i.mutated(l, n)
-    l.items.sort(key=_sort_key)
+    l.items[:] = sort_items(i, list(l.items), k, n, "list.sort")
 
 
 def _m_list_reverse(i, l, a, k, n):
